@@ -37,7 +37,8 @@ def configs(tier, seed):
 
 def gen_workload(r):
   nm = r.randint(1, 6)
-  metrics = ['w%d' % i for i in range(nm)] + (['tag;a=b'] if r.random() < 0.2 else []) + ([''] if r.random() < 0.1 else [])
+  metrics = ['w%d' % i for i in range(nm)] + (['tag;a=b'] if r.random() < 0.2 else []) + ([''] if r.random() < 0.1 else []) + \
+    ([r.choice(['req;legacy', 'a;=b', 'x;k=', 'carbon.agents.h.cpuUsage', 'carbon.relays.r.sent;a=b', 'é.ü;t=é'])] if r.random() < 0.3 else [])
   ops = []
   n = r.randint(3, 14)
   for i in range(n):
